@@ -1422,7 +1422,7 @@ def _k(ctx):
     return Item('call:constructor', [e, f], 'assign')
 
 
-@kind('op:||')
+@kind('op:complex-entity-constructor')
 def _k(ctx):
     en, sub, e1, e2 = _ent2(ctx)
     s3 = ctx.nm('e')
@@ -1430,7 +1430,7 @@ def _k(ctx):
     e1 = e1[:3] + (OP('andor', V(sub), V(s3)),) + e1[4:]
     f = mk_func(ctx.nm('f'), [('assign', V('x'), OP('||', OP('||', CALL(en, I(2), ('agg', ()), INDET), CALL(sub, RL(2.5))), CALL(s3, V('i1'))))],
                 extra_locals=[('x', NAMED(en), None)])
-    return Item('op:||', [e1, e2, e3, f], 'assign')
+    return Item('op:complex-entity-constructor', [e1, e2, e3, f], 'assign')
 
 
 def _qual_item(ctx, name, mk):
